@@ -442,7 +442,10 @@ def run(tier, seed):
         try:
             for _ in range(10 if thorough else 3):
                 d = clirun.keep_decodable(env_on, clirun.gen_wf_dir(rng, rng.choice([2, 4, 7])))
-                files = [(n, apel.enc_pel(p)) for n, p in d] + [('zz_junk', b'PHjunk')]
+                # a log whose parser modules raise / return nothing / cannot be loaded is listed first (and, reversed, last): what a failing module
+                # leaves behind must not reach the logs shown after it
+                trouble = mk_pel(rng, 'x', [ud_sec(rng, 0x2222), ud_sec(rng, 0x3333), ud_sec(rng, 0x8888), ud_sec(rng, 0x5A5A), src_sec(rng, b'BD128D34', [b'PROCBAD!'])])
+                files = [(n, apel.enc_pel(p)) for n, p in d] + [('zz_junk', b'PHjunk'), ('!0_trouble', trouble)]
                 path = clirun.make_dir(files)
                 a, _, _ = clirun.run_main(['-p', path, '-a', '-E'])
                 r, _, _ = clirun.run_main(['-p', path, '-a', '-E', '-r'])
